@@ -5,6 +5,7 @@ package main
 
 import (
 	"fmt"
+	"go/token"
 	"go/types"
 	"sort"
 	"strings"
@@ -251,6 +252,145 @@ func (e *Engine) determinismScan(prop, pkgSuffix string, purePkgs []string) []*O
 		ob := &Obligation{Name: name + ".deterministic", Kind: "frame", Func: name, Props: []string{prop}, Solver: "frame-scan", Status: "discharged",
 			Clause: "no map iteration, goroutine or channel operation, no write to package-level state, external calls only into " + strings.Join(purePkgs, ", ")}
 		if len(bad) > 0 {
+			ob.Status = "refuted"
+			ob.Output = strings.Join(bad, "; ")
+			ob.Clause += " -- violated: " + ob.Output
+		}
+		obs = append(obs, ob)
+	}
+	return obs
+}
+
+// ownErrorsScan: a function whose contract says `own-errors none` (or lists the package-level error
+// values it may raise itself) fails only when something it called failed: every error it returns is
+// nil, the error result of a call into the repository / through an interface or closure, one of the
+// listed package-level values, or a variable whose every assignment (in the function and in its
+// closures) is one of these. An error built on the spot (errors.New, fmt.Errorf, a composite) or an
+// unlisted package-level value is an invented failure.
+func (e *Engine) ownErrorsScan(prop string) []*Obligation {
+	var obs []*Obligation
+	for _, c := range e.CS.Order {
+		spec, ok := c.Opts["own-errors"]
+		if !ok || !hasProp(c, prop) {
+			continue
+		}
+		fn := e.Funcs[c.Name]
+		ob := &Obligation{Name: c.Name + ".own-errors", Kind: "frame", Func: c.Name, Props: []string{prop}, Solver: "frame-scan",
+			Clause: "every error returned is a callee's error or one of: " + spec}
+		if fn == nil || len(fn.Blocks) == 0 {
+			ob.Status = "undecided"
+			ob.Output = "function not found"
+			obs = append(obs, ob)
+			continue
+		}
+		allowed := map[string]bool{}
+		for _, a := range strings.Fields(spec) {
+			allowed[a] = true
+		}
+		// all functions that may write the cells of fn: fn and its closures
+		var family []*ssa.Function
+		var walk func(f *ssa.Function)
+		walk = func(f *ssa.Function) {
+			family = append(family, f)
+			for _, a := range f.AnonFuncs {
+				walk(a)
+			}
+		}
+		walk(fn)
+		var bad []string
+		seen := map[ssa.Value]bool{}
+		var okVal func(v ssa.Value, at string)
+		cellStores := func(name string, typ types.Type, at string) {
+			// every store, anywhere in the family, to a cell (Alloc or FreeVar) of that name
+			for _, f := range family {
+				for _, b := range f.Blocks {
+					for _, ins := range b.Instrs {
+						st, ok := ins.(*ssa.Store)
+						if !ok {
+							continue
+						}
+						n := ""
+						switch a := st.Addr.(type) {
+						case *ssa.Alloc:
+							n = a.Comment
+						case *ssa.FreeVar:
+							n = a.Name()
+						}
+						if n == name && types.Identical(derefType(st.Addr.Type()), typ) {
+							okVal(st.Val, e.posOf(ins))
+						}
+					}
+				}
+			}
+		}
+		okVal = func(v ssa.Value, at string) {
+			if seen[v] {
+				return
+			}
+			seen[v] = true
+			switch t := v.(type) {
+			case *ssa.Const:
+				if !t.IsNil() {
+					bad = append(bad, "constant error at "+at)
+				}
+			case *ssa.Phi:
+				for _, x := range t.Edges {
+					okVal(x, at)
+				}
+			case *ssa.Extract:
+				okVal(t.Tuple, at)
+			case *ssa.Call:
+				cc := t.Common()
+				if cc.IsInvoke() {
+					return
+				}
+				callee := cc.StaticCallee()
+				if callee == nil {
+					return // closure / function value
+				}
+				if e.isRepoFn(callee) {
+					return
+				}
+				bad = append(bad, fmt.Sprintf("error made by %s at %s", callee.String(), e.posOf(t)))
+			case *ssa.UnOp:
+				if t.Op != token.MUL {
+					bad = append(bad, "unexpected error value at "+at)
+					return
+				}
+				switch a := t.X.(type) {
+				case *ssa.Global:
+					if !allowed[a.Name()] {
+						bad = append(bad, fmt.Sprintf("package-level error %s at %s", a.Name(), e.posOf(t)))
+					}
+				case *ssa.Alloc:
+					cellStores(a.Comment, derefType(a.Type()), at)
+				case *ssa.FreeVar:
+					cellStores(a.Name(), derefType(a.Type()), at)
+				default:
+					bad = append(bad, "error loaded from memory at "+e.posOf(t))
+				}
+			case *ssa.Parameter:
+				// handed in by the caller
+			default:
+				bad = append(bad, fmt.Sprintf("error built on the spot (%T) at %s", v, at))
+			}
+		}
+		for _, b := range fn.Blocks {
+			for _, ins := range b.Instrs {
+				ret, ok := ins.(*ssa.Return)
+				if !ok {
+					continue
+				}
+				for _, r := range ret.Results {
+					if r.Type().String() == "error" {
+						okVal(r, e.posOf(ins))
+					}
+				}
+			}
+		}
+		if len(bad) == 0 {
+			ob.Status = "discharged"
+		} else {
 			ob.Status = "refuted"
 			ob.Output = strings.Join(bad, "; ")
 			ob.Clause += " -- violated: " + ob.Output
